@@ -19,6 +19,8 @@ PROPS["C02"] = dict(
         "Zrnt.Proofs.C02.totalActiveStake_eq",
         "Zrnt.Proofs.C02.slashing_multiplier_per_fork",
         "Zrnt.Proofs.C02.justification_eq",
+        "Zrnt.Proofs.C02.registry_batched_eq_sequential",
+        "Zrnt.Proofs.C02.registry_scan_unfixed_witness",
     ],
     modes=[dict(name="c02", nontrivial=_nontrivial)],
     level="proof",
